@@ -115,7 +115,8 @@ Definition init_sess (sch : schema) : sess :=
    of a loaded attribute changed; 21 an unwritten attribute has a value but no database value; 22 a row appears in a fully loaded
    collection; 23 remove: an item survived reverse_remove; 24 assign: items differ after processing; 25 add: a linked item is
    missing from the collection; 26 a deleted object is a member of a collection;
-   27 the status of an object changed while its principals were being saved. *)
+   27 the status of an object changed while its principals were being saved (or while it was loaded in Entity.set);
+   28 a key conflict after the preliminary scan of Entity.set found none. *)
 
 (* a fresh cache over the database d (rollback, failed commit, new db_session) *)
 Definition reset_sess (d : db) : sess := mkSess [] [] [] [] false false [] d d O false [] false.
@@ -981,22 +982,23 @@ Definition del_keys (sch : schema) (s : sess) (o : oid) (e : nat) (l : list nat)
                else acc) l s.
 
 Definition delete_tail (sch : schema) (s1 : sess) (o : oid) (ob : obj) : out unit :=
-  let e := o_ent ob in
-  let attrs := seq O (nattrs sch e) in
-  let s3 := del_keys sch (del_unlink sch s1 o e attrs) o e attrs in
-  match get_obj s3 o with
-  | None => Err s3 EOther
-  | Some ob3 =>
-    (* _delete_ keeps `status` and `save_pos` from its start; if the object's own cascade modified it (a child's
+  match get_obj s1 o with
+  | None => Err s1 EOther
+  | Some ob1 =>
+    (* _delete_ keeps `status` and `save_pos` from its start (ob); if the object's own cascade modified it (a child's
        collection contained it) the stale values queue it twice and the delete overtakes pending updates, which
        then fail their optimistic checks: not modelled *)
-    if negb (status_eqb (o_st ob3) (o_st ob)) || negb (Nat.eqb (o_ent ob3) (o_ent ob)) then Err (mark_declined s3) EOther
-    else if status_eqb (o_st ob3) SCreated then
-      let s4 := upd_obj (unqueue_slot s3 (o_pos ob3)) o (fun x => ob_set_st (ob_set_pos x None) SCancelled) in
-      Ok (match o_pk ob3 with Some pk => idx_del s4 e O (VInt pk) | None => s4 end) tt
+    if negb (status_eqb (o_st ob1) (o_st ob)) || negb (Nat.eqb (o_ent ob1) (o_ent ob)) then Err (mark_declined s1) EOther
     else
-      let s4 := if status_eqb (o_st ob3) SModified then unqueue_slot s3 (o_pos ob3) else s3 in
-      Ok (queue (upd_obj s4 o (fun x => ob_set_st x SMarked)) o) tt
+      let e := o_ent ob1 in
+      let attrs := seq O (nattrs sch e) in
+      let s3 := del_keys sch (del_unlink sch s1 o e attrs) o e attrs in
+      if status_eqb (o_st ob1) SCreated then
+        let s4 := upd_obj (unqueue_slot s3 (o_pos ob1)) o (fun x => ob_set_st (ob_set_pos x None) SCancelled) in
+        Ok (match o_pk ob1 with Some pk => idx_del s4 e O (VInt pk) | None => s4 end) tt
+      else
+        let s4 := if status_eqb (o_st ob1) SModified then unqueue_slot s3 (o_pos ob1) else s3 in
+        Ok (queue (upd_obj s4 o (fun x => ob_set_st x SMarked)) o) tt
   end.
 
 (* Entity._delete_ *)
@@ -1075,6 +1077,23 @@ Definition new_obj_record (e : nat) (pk : option Z) (cs : list cval) (upto : nat
              (combine (seq O n) cs))
         None false.
 
+Definition key_conflicts (sch : schema) (s : sess) (e : nat) (ob0 : obj) (l : list nat) : bool :=
+  existsb (fun a => attr_uniq sch e a &&
+                    match oval ob0 a with
+                    | Some v => negb (is_vnone v) && match idx_get s e (S a) v with Some _ => true | None => false end
+                    | None => false
+                    end) l.
+
+(* register the loaded, non-None unique values of o in the indexes *)
+Definition put_keys (sch : schema) (s : sess) (o : oid) (e : nat) (l : list nat) : sess :=
+  fold_left (fun acc a =>
+               if attr_uniq sch e a then
+                 match obj_val acc o a with
+                 | Some v => if is_vnone v then acc else idx_put acc e (S a) v o
+                 | None => acc
+                 end
+               else acc) l s.
+
 Definition new_op (sch : schema) (s : sess) (e : nat) (pk : option Z) (kw : list (nat * arg)) : sess * res :=
   match nth_error sch e with
   | None => (s, RErr EBadAttr)
@@ -1089,11 +1108,8 @@ Definition new_op (sch : schema) (s : sess) (e : nat) (pk : option Z) (kw : list
       | VOk cs =>
         let n := length cs in
         let ics := combine (seq O n) cs in
-        if existsb (fun p => match snd p with
-                             | CVal v => attr_uniq sch e (fst p) && negb (is_vnone v) &&
-                                         match idx_get s e (S (fst p)) v with Some _ => true | None => false end
-                             | CSet _ => false end) ics
-        then (s, RErr ECacheIndex)
+        let ob0 := new_obj_record e pk cs n in
+        if key_conflicts sch s e ob0 (seq O n) then (s, RErr ECacheIndex)
         else if match pk with Some z => match idx_get s e O (VInt z) with Some _ => true | None => false end | None => false end
         then (s, RErr ECacheIndex)
         else
@@ -1105,9 +1121,13 @@ Definition new_op (sch : schema) (s : sess) (e : nat) (pk : option Z) (kw : list
             let s2 := match pk with Some z => idx_put s1 e O (VInt z) o | None => s1 end in
             (mark_dirty s2 1, RErr EDeleted)
           | None =>
-            let '(s1, o) := push_obj s (new_obj_record e pk cs n) in
+            let '(s1, o) := push_obj s ob0 in
+            (* the primary key and the unique keys enter the indexes (the code does the latter after the attribute loop;
+               nothing in between reads them) *)
+            let s2 := match pk with Some z => idx_put s1 e O (VInt z) o | None => s1 end in
+            let s3 := put_keys sch s2 o e (seq O n) in
             (* references: update_reverse(obj, None, val); collections: Set.__set__(obj, items, undo_funcs) *)
-            let s2 := fold_left (fun acc p =>
+            let s4 := fold_left (fun acc p =>
                         match snd p with
                         | CVal (VRef t) => match ref_info sch e (fst p) with Some (_, r_) => rev_add acc t r_ o | None => acc end
                         | CVal _ => acc
@@ -1120,18 +1140,45 @@ Definition new_op (sch : schema) (s : sess) (e : nat) (pk : option Z) (kw : list
                             set_modified (modcoll_add (put_sd acc1 o (fst p) (mkSd items items [] true (Some (Z.of_nat (length items))))) o (fst p)) true
                           | None => acc
                           end
-                        end) ics s1 in
-            let s3 := match pk with Some z => idx_put s2 e O (VInt z) o | None => s2 end in
-            let s4 := fold_left (fun acc p =>
-                        match snd p with
-                        | CVal v => if attr_uniq sch e (fst p) && negb (is_vnone v) then idx_put acc e (S (fst p)) v o else acc
-                        | CSet _ => acc
                         end) ics s3 in
             let '(s5, h) := handle_of (queue s4 o) o in
             (s5, RObj h)
           end
       end
   end.
+
+(* unique attribute: index and value together (update_simple_index + vals); the caller has excluded a conflict.
+   The guards (deleted object, foreign entity) cannot fire after the callers' checks. *)
+Definition key_set (s : sess) (o : oid) (e a : nat) (nv : val) : sess :=
+  match get_obj s o with
+  | Some ob =>
+    if is_del (o_st ob) || negb (Nat.eqb (o_ent ob) e) then s
+    else
+      let old := oval ob a in
+      if oval_eqb old (Some nv) then s
+      else
+        let s2 := if is_vnone nv then s else idx_put s e (S a) nv o in
+        let s3 := match old with Some ov => if is_vnone ov then s2 else idx_del s2 e (S a) ov | None => s2 end in
+        upd_obj s3 o (fun ob1 => ob_put_val ob1 a (Some nv))
+  | None => s
+  end.
+
+(* the index half only: what Entity.set has done to cache.indexes when it fails later *)
+Definition key_set_index_only (s : sess) (o : oid) (e a : nat) (nv : val) : sess :=
+  let old := match obj_val s o a with Some ov => ov | None => VNone end in
+  if val_eqb old nv then s
+  else
+    let s2 := if is_vnone nv then s else idx_put s e (S a) nv o in
+    if is_vnone old then s2 else idx_del s2 e (S a) old.
+
+Definition key_conflict (s : sess) (o : oid) (e a : nat) (nv : val) : bool :=
+  let old := match obj_val s o a with Some ov => ov | None => VNone end in
+  negb (val_eqb old nv) && negb (is_vnone nv) &&
+  match idx_get s e (S a) nv with Some o2 => negb (Nat.eqb o2 o) | None => false end.
+
+(* site 28: a conflict after the preliminary scan of Entity.set found none *)
+Definition key_set_checked (sch : schema) (s : sess) (o : oid) (e a : nat) (nv : val) : sess :=
+  if negb (attr_uniq sch e a) || key_conflict s o e a nv then mark_dirty s 28 else key_set s o e a nv.
 
 (* ------------------------------------------------------------------------------------------------ obj.attr = value *)
 
@@ -1157,44 +1204,17 @@ Definition set_op (sch : schema) (s : sess) (h a : nat) (v : arg) : sess * res :
           else
             let s1 := mark_written s o a in
             if oval_eqb old (Some nv) then (s1, ROk)
-            else
-              let conflict := negb (is_vnone nv) && match idx_get s e (S a) nv with Some o2 => negb (Nat.eqb o2 o) | None => false end in
-              if conflict then
-                (* update_simple_index raises; undo_func restores status, wbits and the queue (cache.modified stays set);
-                   if the old value was NOT_LOADED the undo itself raises KeyError *)
-                (set_modified s (s_modified s || negb (status_eqb (obj_st s o) SCreated)),
-                 RErr (match old with None => EKeyError | Some _ => ECacheIndex end))
-              else
-                let s2 := if is_vnone nv then s1 else idx_put s1 e (S a) nv o in
-                let s3 := match old with Some ov => if is_vnone ov then s2 else idx_del s2 e (S a) ov | None => s2 end in
-                (upd_obj s3 o (fun ob => ob_put_val ob a (Some nv)), ROk)
+            else if key_conflict s1 o e a nv then
+              (* update_simple_index raises; undo_func restores status, wbits and the queue (cache.modified stays set);
+                 if the old value was NOT_LOADED the undo itself raises KeyError *)
+              (set_modified s (s_modified s || negb (status_eqb (obj_st s o) SCreated)),
+               RErr (match old with None => EKeyError | Some _ => ECacheIndex end))
+            else (key_set s1 o e a nv, ROk)
         end
     end
   end.
 
 (* ------------------------------------------------------------------------------------------------ Entity.set with keyword arguments *)
-
-(* unique attribute: index and value together (update_simple_index + vals), no conflict *)
-Definition key_set (s : sess) (o : oid) (e a : nat) (nv : val) : sess :=
-  let old := obj_val s o a in
-  if oval_eqb old (Some nv) then s
-  else
-    let s2 := if is_vnone nv then s else idx_put s e (S a) nv o in
-    let s3 := match old with Some ov => if is_vnone ov then s2 else idx_del s2 e (S a) ov | None => s2 end in
-    upd_obj s3 o (fun ob => ob_put_val ob a (Some nv)).
-
-(* the index half only: what Entity.set has done to cache.indexes when it fails later *)
-Definition key_set_index_only (s : sess) (o : oid) (e a : nat) (nv : val) : sess :=
-  let old := match obj_val s o a with Some ov => ov | None => VNone end in
-  if val_eqb old nv then s
-  else
-    let s2 := if is_vnone nv then s else idx_put s e (S a) nv o in
-    if is_vnone old then s2 else idx_del s2 e (S a) old.
-
-Definition key_conflict (s : sess) (o : oid) (e a : nat) (nv : val) : bool :=
-  let old := match obj_val s o a with Some ov => ov | None => VNone end in
-  negb (val_eqb old nv) && negb (is_vnone nv) &&
-  match idx_get s e (S a) nv with Some o2 => negb (Nat.eqb o2 o) | None => false end.
 
 Fixpoint validate_kw (sch : schema) (s : sess) (e : nat) (kw : list (nat * arg)) : vres (list (nat * cval)) :=
   match kw with
@@ -1239,6 +1259,7 @@ Definition setmany_op (sch : schema) (s : sess) (h : nat) (kw : list (nat * arg)
         match r0 with
         | Err s1 er => (s1, RErr er)
         | Ok s1 _ =>
+          if is_del (obj_st s1 o) then (mark_dirty s1 27, RErr EAssertion) else
           let s2 := fold_left (fun acc p => mark_written acc o (fst p)) avs s1 in
           let plain := forallb (fun p => negb (attr_is_ref sch e (fst p)) && negb (attr_uniq sch e (fst p))) avs in
           match cavs, plain, avs with
@@ -1259,18 +1280,18 @@ Definition setmany_op (sch : schema) (s : sess) (h : nat) (kw : list (nat * arg)
             (* Entity.set updates reverse sides, then collections, and only then vals: with a reference and a collection
                argument in one call the collection code observes the stale reference; not modelled *)
             if match cavs with [] => false | _ => existsb (fun p => attr_is_ref sch e (fst p)) avs' end then (mark_declined s, RDecline)
-            else if conflict then ((if changed then mark_dirty s_idx_only 2 else s_idx_only), RErr ECacheIndex)
+            else if conflict then ((if changed then mark_dirty s_idx_only 2 else s2), RErr ECacheIndex)
             else
               (* success path, atomically per attribute *)
               let s3 := fold_left (fun acc p =>
-                          if attr_uniq sch e (fst p) then key_set acc o e (fst p) (snd p)
+                          if attr_uniq sch e (fst p) then key_set_checked sch acc o e (fst p) (snd p)
                           else if attr_is_ref sch e (fst p) then ref_set_direct sch acc o (fst p) (snd p)
                           else upd_obj acc o (fun ob => ob_put_val ob (fst p) (Some (snd p)))) avs' s2 in
               match fold_out (fun acc p => coll_assign sch acc o (fst p) (snd p)) s3 cavs with
               | Ok s4 _ => (s4, ROk)
               | Err _ er =>
                 (* a collection assignment failed: reverse sides are undone, cache.indexes is not (known finding) *)
-                ((if changed || Nat.ltb 1 (length cavs) then mark_dirty s_idx_only 3 else s_idx_only), RErr er)
+                ((if changed || Nat.ltb 1 (length cavs) then mark_dirty s_idx_only 3 else s2), RErr er)
               end
           end
         end
